@@ -361,3 +361,8 @@ def run(ck):
     from .c05 import rule_stateless_view, rule_escape
     ck.attempt(rule_stateless_view, rid="C08.R9")
     ck.attempt(rule_escape, rid="C08.R9")
+    # "each receives the largest pilot that is feasible": the preprocessing that decides which sessions are served at all converts
+    # energy, current and time exactly (unit rules of C07)
+    from .c07 import rule_units
+    ck.attempt(rule_units, rid="C08.R10")
+
